@@ -130,7 +130,21 @@ def gen_matrix(spec: dict) -> torch.Tensor:
     m, n = spec["m"], spec["n"]
     kind = spec.get("kind", "gauss")
     dt = torch.float64
-    if kind == "offset":  # a large common component: rows = ratio * c + spread (norms >> mutual distances)
+    if kind == "weakdir":
+        # dominant rows aligned with one direction u, a TINY row that conflicts with them, and a weak (but non-null) second
+        # direction v that carries the conflict: hiding v (a rank cut-off on squared singular values, ...) changes the answer
+        u = torch.randn(n, generator=g, dtype=dt)
+        u = u / u.norm()
+        v = torch.randn(n, generator=g, dtype=dt)
+        v = v - (v @ u) * u
+        v = v / v.norm() if float(v.norm()) > 0 else v
+        e = lambda: float(torch.rand(1, generator=g, dtype=dt)) * 0.009 + 0.001  # noqa: E731
+        rows = [u + e() * v, -e() * 2.0 * u - e() * v]
+        for i in range(2, m):
+            rows.append((0.3 + 0.1 * i) * u + e() * v)
+        M = torch.stack(rows[:m]) if m >= 2 else (u + e() * v).unsqueeze(0)
+        M = M[torch.randperm(M.shape[0], generator=g)]
+    elif kind == "offset":  # a large common component: rows = ratio * c + spread (norms >> mutual distances)
         dev = float(spec.get("spread", 1.0)) * torch.randn(m, n, generator=g, dtype=dt)
         if spec.get("hetero"):  # rows at clearly different distances from the common component: well separated Krum scores
             dev = dev * (1.0 + 0.6 * torch.arange(m, dtype=dt)).unsqueeze(1)
